@@ -225,7 +225,77 @@ def unified_work(chunk):
     return t
 
 
+def probe(t, U, after):
+    """a fixed set of valid identifiers re-verified against the reference: the answer for a valid id must not depend on
+    what the functions were asked before (in particular on calls they refused)"""
+    for base in ("03783310", "38259P50", "ZZZZZZZZ", "0*1@2#3A"):
+        t.count("evaluations")
+        exp = R.cusip_check(base)
+        try:
+            ok = U.cusip_checksum(base) == exp and U.validate_cusip(base + exp) is True
+            if ok and base.isalnum():
+                iso = U.cusip2isin(base + exp)
+                ok = iso == "US" + base + exp + R.isin_check("US" + base + exp)
+        except Exception:
+            ok = False
+        if not ok:
+            t.fail(f"C20|cusip|valid-id-after-a-refused-call|{after[0]}", {"kind": "after-refused", "fn": after[0], "arg": after[1], "id": base}, f"{base!r} after {after}")
+            return False
+    for base in ("011100", "B1B2B3", "026349", "ZZZZZZ"):
+        t.count("evaluations")
+        exp = R.sedol_check(base)
+        try:
+            ok = U.sedol_checksum(base) == exp and U.sedol2isin(base + exp) == "GB00" + base + exp + R.isin_check("GB00" + base + exp)
+        except Exception:
+            ok = False
+        if not ok:
+            t.fail(f"C20|sedol|valid-id-after-a-refused-call|{after[0]}", {"kind": "after-refused", "fn": after[0], "arg": after[1], "id": base}, f"{base!r} after {after}")
+            return False
+    for base in ("US037833100", "GB000263494", "ZAZZZZZZZZZ", "DE000BAY001"):
+        t.count("evaluations")
+        exp = R.isin_check(base)
+        try:
+            ok = U.isin_checksum(base) == exp and U.validate_isin(base + exp) is True
+        except Exception:
+            ok = False
+        if not ok:
+            t.fail(f"C20|isin|valid-id-after-a-refused-call|{after[0]}", {"kind": "after-refused", "fn": after[0], "arg": after[1], "id": base}, f"{base!r} after {after}")
+            return False
+    return True
+
+
+def disturbances(t, U):
+    """every function x arguments it refuses (an invalid character at each position, lower case, wrong length, wrong
+    type, wrong check character, unknown prefix), each followed by probe()"""
+    if not probe(t, U, ("nothing", "")):
+        return
+    bad = {}
+    for fn, good in (("cusip_checksum", "03783310"), ("validate_cusip", "037833100"), ("cusip2isin", "037833100"), ("sedol_checksum", "011100"), ("sedol2isin", "0111009"),
+                     ("isin_checksum", "US037833100"), ("validate_isin", "US0378331005")):
+        args = []
+        for i in range(len(good)):
+            for ch in ("A" if fn.startswith("sedol") else "a", "-", " ", "\u00e9", "E" if fn.startswith("sedol") else "$"):
+                args.append(good[:i] + ch + good[i + 1 :])
+        args += [good[:-1], good + "0", "", good.lower(), None, 7, good[:-1] + ("1" if good[-1] != "1" else "2"), "ZZ" + good[2:], " " + good, good + " "]
+        bad[fn] = args
+    n = 0
+    for fn, args in bad.items():
+        f = getattr(U, fn)
+        for a in args:
+            t.count("evaluations")
+            try:
+                r = f(a)
+                t.outcome("disturbing-call-answered")
+            except Exception:
+                t.outcome("disturbing-call-refused")
+            n += 1
+            if not probe(t, U, (fn, a)):
+                break
+    t.count("disturbing-calls", n)
+
+
 def misc(t, U, agencies):
+    disturbances(t, U)
     # wrong lengths never validate
     for n in range(0, 15):
         for fill in ("0", "9", "A"):
@@ -377,7 +447,7 @@ def run(ctx):
         "rule": f"CUSIP: {cusip_digits} + every base within <=2 positions of {base_c!r} over the 39-character alphabet (incl. * @ #) and "
         f"<=1 of two more; SEDOL: all 10^6 digit bases + <=2-position variations of {base_s!r} over digits+consonants; ISIN: {isin_digits} + "
         f"<=2-position variations of {base_i!r} over alphanumerics; for the variation sets and every 10th/100th digit base: completed id validates, "
-        "every other check character from a 20-character set is rejected, cusip2isin/sedol2isin embed the original and validate; wrong lengths 0..14; "
+        "every other check character from a 20-character set is rejected, cusip2isin/sedol2isin embed the original and validate; wrong lengths 0..14; every function x every argument class it refuses (invalid character at each position, case, length, type, check character, prefix) each followed by a re-check of 12 valid ids; "
         "all unknown two-letter prefixes; every case is a distinct identifier (all non-trivial)",
         "exhaustive": True,
         "distinct_outcomes": len(tally.outcomes),
